@@ -1,0 +1,32 @@
+//go:build verif
+
+// Contracts for package internal/fetcher (comment-only; read by /verif/cmd/govc).
+package fetcher
+
+// ASSUMED interface of the cache update (the key/tx records are shared mutable entries reached
+// through maps, outside the generator's pointer model): set records for key k whether it exists
+// and, if so, its value and chunk count.
+//@ func (*Fetcher).set
+//@   trusted
+//@   noframe
+//@   modifies gmap("cache", f)[], gmap("chunks", f)[]
+//@   ensures has(gmap("cache", f), k) == exists
+//@   ensures exists ==> gmap("cache", f)[k] == str(v) && be16(gmap("chunks", f)[k], 0) == chunks && len(gmap("chunks", f)[k]) == 2
+//@   ensures forall q string :: q != k ==> has(gmap("cache", f), q) == old(has(gmap("cache", f), q)) && gmap("cache", f)[q] == old(gmap("cache", f)[q])
+//@ func (*Fetcher).handleErr
+//@   trusted
+//@   noframe
+//@ func github.com/ava-labs/hypersdk/state.Immutable.GetValue
+//@   noframe
+//@   ensures err != nil ==> len(result0) == 0
+
+// one fetch step of a worker (C24): a key the parent state does not have is cached as absent, a key
+// it has -- also with an empty value -- is cached as present with exactly the value read and the
+// chunk count of that value; any other read error stops the worker without caching anything.
+// Which worker handles which task, and that every task is handled, is scheduling (not decided).
+//@ func (*Fetcher).runWorker props C24
+//@   noframe
+//@   modifies gmap("cache", f)[], gmap("chunks", f)[]
+//@   loop 1 invariant true
+//@   at call set assert has(gmap("cache", f), t.key) == (err == nil)
+//@   at call set assert err == nil ==> gmap("cache", f)[t.key] == str(v) && be16(gmap("chunks", f)[t.key], 0) == keys.chunksOf(len(v))
